@@ -152,6 +152,12 @@ def c11_gen_text():
         split_first = True
     else:
         raise ExtractError("Options.build: unexpected arguments of opt.split('=' ...)")
+    inpk = [n for n in ast.walk(build) if isinstance(n, ast.FunctionDef) and n.name == "in_package"]
+    if len(inpk) != 1 or not isinstance(inpk[0].body[-1], ast.Return):
+        raise ExtractError("API.build: nested function in_package not found")
+    in_package_src = ast.unparse(inpk[0].body[-1].value)
+    subp = find_function("gapic/schema/api.py", "API.subpackages")
+    subp_elts = [ast.unparse(n.elt) for n in ast.walk(subp) if isinstance(n, ast.SetComp)]
     sample_name = module_assign("gapic/samplegen/samplegen.py", "DEFAULT_TEMPLATE_NAME")
     flags = sorted(module_assign("gapic/utils/options.py", "OPT_FLAGS", "Options"))
     prefix = module_assign("gapic/utils/options.py", "PYTHON_GAPIC_PREFIX", "Options")
@@ -165,7 +171,9 @@ def c11_gen_text():
              f"Definition kwlist : list string := {coq.slist(interpreter_kwlist())}.",
              f"Definition sample_template_name : string := {coq.s(sample_name)}.",
              f"Definition invalid_module_extra : list string := {coq.slist(sorted(extra))}.",
-             f"Definition file_to_generate_exprs : list string := {coq.slist(ftg)}."]
+             f"Definition file_to_generate_exprs : list string := {coq.slist(ftg)}.",
+             f"Definition in_package_src : string := {coq.s(in_package_src)}.",
+             f"Definition subpackage_elts : list string := {coq.slist(subp_elts)}."]
     for k, v in consts.items():
         lines.append(f"Definition {k} : list string := {coq.slist(v)}.")
     return "\n".join(lines) + "\n"
